@@ -184,6 +184,14 @@ def gen_cases(tier, rng):
                    (['-v', '5,6,7'], 'reject')):
         cases.append('H:f=0 arg:v:vi0:clear/vm=opt/card=exact~2/init=1~2 %s exp:%s mut:%s'
                      % (A.argv_tok(w), exp, 'cardinality' if exp == 'reject' else 'none'))
+    # a cardinality range without an upper limit (maximum -1): the minimum still holds (the pinned tree did not count
+    # the values then: found on the unchanged tree, repaired)
+    for w, exp in ((['-v', '1'], 'reject'), (['-v', '1', '-v', '2'], 'i0=0;vi0=[1,2]'), (['-v', '1,2'], 'i0=0;vi0=[1,2]'), (['-v', '1,2,3,4,5,6'], 'i0=0;vi0=[1,2,3,4,5,6]'),
+                   (['-n', '4'], 'i0=4;vi0=[]'), (['-v', '1', '-n', '4'], 'reject'), (['-n', '4', '-v', '1', '-v', '2', '-v', '3'], 'i0=4;vi0=[1,2,3]')):
+        cases.append('H:f=0 arg:v:vi0:card=range~2~-1 arg:n:i0: %s exp:%s mut:%s' % (A.argv_tok(w), exp, 'cardinality' if exp == 'reject' else 'none'))
+    for w, exp in ((['-n', '1'], 'reject'), (['-n', '1', '-n', '2'], 'reject'), (['-n', '1', '-n', '2', '-n', '3'], 'i0=3'), (['-n', '1', '-n', '2', '-n', '3', '-n', '4'], 'i0=4')):
+        cases.append('H:f=0 arg:n:i0:card=range~3~-1 %s exp:%s mut:%s' % (A.argv_tok(w), exp, 'cardinality' if exp == 'reject' else 'none'))
+    cases.append('H:f=0 arg:n:i0:card=max~-1 %s exp:i0=3 mut:none' % A.argv_tok(['-n', '1', '-n', '2', '-n', '3']))
     # nothing on the command line: the end-of-line checks still run
     cases.append('H:f=0 arg:m:i0:man arg:x:b0:init=0 argv:- exp:reject mut:drop-mandatory')
     cases.append('H:f=0 arg:l:b0:init=0 arg:m:b1:init=0 con:one_of:l;m argv:- exp:reject mut:break-handler-constraint')
